@@ -197,7 +197,9 @@ func init() {
 		if neg {
 			t = "(- " + t + ")"
 		}
-		return tuple{sint(t), iface{}}
+		r := sint(t)
+		r.Lo, r.Hi, r.Bounded = -(w - 1), w-1, true
+		return tuple{r, iface{}}
 	})
 }
 
